@@ -56,6 +56,7 @@ pub fn v_println(args: &[VArg]) { }
 /// Permission to create or truncate a file at the output path.  Uninterpreted: no function can establish it,
 /// so code WITHOUT it in its `requires` provably never reaches File::create.
 pub uninterp spec fn fs_create_permitted() -> bool;
+pub uninterp spec fn fs_resize_permitted() -> bool;
 pub mod vio {
     use vstd::prelude::*;
     pub struct Error;
@@ -100,6 +101,12 @@ impl File {
     #[verifier::external_body]
     pub fn flush(&mut self) -> (r: vio::Result<()>)
         ensures final(self).fresh() == old(self).fresh(), final(self).contents() == old(self).contents()
+    { unimplemented!() }
+    /// std::fs::File::set_len truncates or zero-extends the file: bytes the handle never wrote appear in it.  It needs a
+    /// permission no function can establish (like fs_create_permitted), so any call is a failed obligation (C13)
+    #[verifier::external_body]
+    pub fn set_len(&self, size: u64) -> (r: vio::Result<()>)
+        requires fs_resize_permitted()
     { unimplemented!() }
     #[verifier::external_body]
     pub fn write_all(&mut self, buf: &[u8]) -> (r: vio::Result<()>)
@@ -253,8 +260,11 @@ pub fn v_fs_read(path: PathBuf) -> (r: vio::Result<Vec<u8>>) { unimplemented!() 
 pub struct FromUtf8Error;
 #[verifier::external_body]
 pub fn v_string_from_utf8(v: Vec<u8>) -> (r: Result<String, FromUtf8Error>) { unimplemented!() }
+impl PathBuf { pub uninterp spec fn chars(&self) -> Seq<char>; }
 #[verifier::external_body]
-pub fn v_pathbuf_from_string(s: String) -> (r: PathBuf) { unimplemented!() }
+pub fn v_pathbuf_from_string(s: String) -> (r: PathBuf)
+    ensures r.chars() == s@
+{ unimplemented!() }
 impl From<DecryptError> for AnyhowError { #[verifier::external_body] fn from(e: DecryptError) -> AnyhowError { AnyhowError } }
 impl From<EncryptError> for AnyhowError { #[verifier::external_body] fn from(e: EncryptError) -> AnyhowError { AnyhowError } }
 
